@@ -284,6 +284,19 @@ func (d *duplexHTTPCall) makeRequest() {
 	defer close(d.responseReady)
 	defer verifYield("request.closeready") // deferred last, so it runs before the close
 
+	if done := d.ctx.Done(); done != nil {
+		// The transport may be blocked reading the request body from our pipe,
+		// where it can't see that the context has ended - while it waits for the
+		// response of an HTTP/1.1 call whose request is still open, or later with
+		// a read of the response body pending. Closing the pipe unblocks it.
+		go func() {
+			select {
+			case <-done:
+				d.SetError(d.ctx.Err())
+			case <-d.readClosed:
+			}
+		}()
+	}
 	// Once we send a message to the server, they send a message back and
 	// establish the receive side of the stream.
 	verifYield("request.do")
@@ -302,18 +315,6 @@ func (d *duplexHTTPCall) makeRequest() {
 		return
 	}
 	d.response = response
-	if done := d.ctx.Done(); done != nil {
-		// The transport may be blocked reading the request body from our pipe,
-		// where it can't see that the context has ended. Closing the pipe
-		// unblocks it, and with it any pending read of the response body.
-		go func() {
-			select {
-			case <-done:
-				d.SetError(d.ctx.Err())
-			case <-d.readClosed:
-			}
-		}()
-	}
 	if err := d.validateResponse(response); err != nil {
 		if ctxErr := d.ctx.Err(); ctxErr != nil {
 			// Validation may read from the response body (unary Connect errors),
